@@ -46,6 +46,31 @@
 static void reb_tree_get_nearest_neighbour_in_cell(struct reb_simulation* const r, int* collisions_N, struct reb_vec6d gb, struct reb_vec6d gbunmod, int ri, double p1_r,  double* nearest_r2, struct reb_collision* collision_nearest, struct reb_treecell* c);
 static void reb_tree_check_for_overlapping_trajectories_in_cell(struct reb_simulation* const r, int* collisions_N, struct reb_vec6d gb, struct reb_vec6d gbunmod, int ri, double p1_r, double p1_r_plus_dtv, struct reb_collision* collision_nearest, struct reb_treecell* c, double maxdrift);
 
+/**
+ * @brief Makes sure max_radius0/1 are upper bounds of the two largest particle radii.
+ * @details The tree based collision searches prune cells using max_radius0/1.
+ * These are set in reb_simulation_add(), but radii can be changed by the user
+ * afterwards and grow in mergers. This check is O(N). Values are never decreased
+ * (they might include radii of particles on other nodes).
+ */
+static void reb_collision_update_max_radius(struct reb_simulation* const r){
+    const struct reb_particle* const particles = r->particles;
+    const int N = r->N - r->N_var;
+    double max_radius0 = 0.;
+    double max_radius1 = 0.;
+    for (int i=0;i<N;i++){
+        const double radius = particles[i].r;
+        if (radius>=max_radius0){
+            max_radius1 = max_radius0;
+            max_radius0 = radius;
+        }else if (radius>=max_radius1){
+            max_radius1 = radius;
+        }
+    }
+    r->max_radius0 = MAX(r->max_radius0, max_radius0);
+    r->max_radius1 = MAX(r->max_radius1, max_radius1);
+}
+
 void reb_collision_search(struct reb_simulation* const r){
     int N = r->N - r->N_var;
     int Ninner = N;
@@ -253,6 +278,8 @@ void reb_collision_search(struct reb_simulation* const r){
             // Transfer essential tree and particles needed for collisions.
             reb_communication_mpi_distribute_essential_tree_for_collisions(r);
 #endif // MPI
+            // Radii might have changed since particles were added.
+            reb_collision_update_max_radius(r);
 
             // Loop over ghost boxes, but only the inner most ring.
             int N_ghost_xcol = (r->N_ghost_x>1?1:r->N_ghost_x);
@@ -312,6 +339,8 @@ void reb_collision_search(struct reb_simulation* const r){
             // Update and simplify tree. 
             // Prepare particles for distribution to other nodes. 
             reb_simulation_update_tree(r);          
+            // Radii might have changed since particles were added.
+            reb_collision_update_max_radius(r);
 
             // Loop over ghost boxes, but only the inner most ring.
             int N_ghost_xcol = (r->N_ghost_x>1?1:r->N_ghost_x);
